@@ -75,7 +75,7 @@ func (o OneOfSchema[KeyType]) ReflectedType() reflect.Type {
 //nolint:funlen
 func (o OneOfSchema[KeyType]) UnserializeType(data any) (result any, err error) {
 	if data == nil {
-		return nil, fmt.Errorf("bug: data is nil in OneOfSchema UnserializeType")
+		return nil, &ConstraintError{Message: "bug: data is nil in OneOfSchema UnserializeType"}
 	}
 	reflectedValue := reflect.ValueOf(data)
 	if reflectedValue.Kind() != reflect.Map {
